@@ -142,3 +142,26 @@ PLANS["C02"] = proto_plan("C02", "fault_enumeration", RULE_PROTO + "; C02: per a
 PLANS["C03"] = proto_plan("C03", "exploration", RULE_PROTO + "; C03: double-signalling publishers (3 real messages per run: same slot twice, other epoch or id), duplicated deliveries, 40 synthetic share pairs per run with secret/x/ext in {0,1,p-1,random}, x1 = x2 with equal and different y", 120, 2000)
 PLANS["C12"] = proto_plan("C12", "exploration", RULE_PROTO + "; C12: valid and malformed proving requests (id = limit, id > limit, id or limit beyond 16 bits, position outside the tree, wrong path length, non-binary direction values, torn request, reader/writer errors) through all four entry points; Ok => verifies is evaluated on every proving step", 200, 3000)
 PLANS["C13"] = proto_plan("C13", "fault_enumeration", RULE_PROTO + "; C13: one accepted message, then truncation lengths (all in thorough, boundaries + sample in quick), declared signal lengths in a boundary set, random bytes, malformed root sets, v + k*p aliases of each public value (k = 1..5) at verify / verify_rln_proof / verify_with_roots / recover_id_secret (both arguments)", 100, 1500)
+
+
+def c11_plan(tier, seed, known):
+    n = 12000 if tier == "thorough" else 640
+    jobs = split_jobs("e3", "C11", seed, n, 16, 1, "default", known, tier, rayons=(1, 1, 2, 1))
+    return {
+        "jobs": jobs,
+        "level": "exploration",
+        "rule": ("one evaluation = one seeded call history (8..60 calls; depth 1..6 tree-centred, or depth 20 with real proving) issued to two contexts: "
+                 "the Rust API first (under catch_unwind), then the extern \"C\" function with Buffer arguments built by the harness; compared after every "
+                 "call: flag <=> Ok, output buffer bytes (sentinel-initialised: untouched on failure), verdict cell (preset both ways: untouched on "
+                 "failure), leaf count, and root/leaf count/metadata (every leaf + empty list every 4th call); ~10% of mutating calls run with the "
+                 "k-th storage write failing on both sides; non-trivial = at least 3 calls compared; distinct = trace digest"),
+        "real": ["rln::ffi extern \"C\" functions called with #[repr(C)] Buffer arguments", "rln::public::RLN (reference side)", "persistent tree on a temporary sled store", "Groth16 prover/verifier for the depth-20 histories"],
+        "stub": ["the C caller (a Rust harness builds Buffer{ptr,len}, output/verdict cells with sentinels)", "storage failure source (guarded hook)"],
+        "assumptions": ["the property quantifies over calls for which the Rust API returns: a history ends when the Rust side panics (counted in rust_side_panicked_run_ends; the only source seen is the open known finding in PmTree's mixed batch arm)",
+                        "random outputs (proof bytes, unseeded identities) are compared structurally: lengths, public values, identity relations",
+                        "the witness getter has no FFI form; for generate_rln_proof_with_witness the witness is taken from the FFI context through the Rust API"],
+        "timeout_s": 3000 if tier == "thorough" else 900,
+    }
+
+
+PLANS["C11"] = c11_plan
